@@ -175,7 +175,8 @@ pub fn dump_measure() {
     });
 }
 
-fn tf_roundtrip(name: &str, tf: TransferFunction, lo_bits: u32, hi_bits: u32, step: u32, chunk: usize, tol: (f64, f64), colour: bool) -> TfResult {
+fn tf_roundtrip(name: &str, tf: TransferFunction, lo_bits: u32, hi_bits: u32, step: u32, chunk: usize, tol: (f64, f64), mode: u32) -> TfResult {
+    let (colour, negative) = (mode & 1 != 0, mode & 2 != 0);
     let hdr = default_header();
     let m = &hdr.metadata;
     let fwd = ColorTransform::new(&enc(TransferFunction::Linear), &enc(tf), &m.opsin_inverse_matrix, &m.tone_mapping, &NullCms);
@@ -190,7 +191,7 @@ fn tf_roundtrip(name: &str, tf: TransferFunction, lo_bits: u32, hi_bits: u32, st
     while bits <= hi_bits {
         let mut xs: Vec<f32> = Vec::with_capacity(chunk);
         while xs.len() < chunk && bits <= hi_bits {
-            xs.push(f32::from_bits(bits));
+            xs.push(if negative { -f32::from_bits(bits) } else { f32::from_bits(bits) });
             bits = bits.saturating_add(step);
             if bits == u32::MAX {
                 break;
@@ -248,7 +249,7 @@ fn tf_roundtrip(name: &str, tf: TransferFunction, lo_bits: u32, hi_bits: u32, st
             }
             // monotone (non-decreasing) encode on increasing inputs
             if let Some((px, pe)) = prev_enc {
-                if xs[i] > px && encd[i] < pe && (pe - encd[i]) as f64 > 1e-6 && res.viol.is_none() {
+                if !negative && xs[i] > px && encd[i] < pe && (pe - encd[i]) as f64 > 1e-6 && res.viol.is_none() {
                     res.viol = Some((format!("not-monotone:{name}"), format!("{name}: encode({px:e}) = {pe:e} but encode({:e}) = {:e}", xs[i], encd[i])));
                 }
             }
@@ -334,17 +335,26 @@ pub fn main(args: &crate::Args) {
         for len in [4096usize, 13, 1] {
             jobs.push((ti, 0x38d1_b717, one, if quick { 4096 } else { 64 }, len | (1 << 20)));
         }
+        // negative samples (the curves are extended as odd functions): the same ramp negated, in full vector blocks and in
+        // tails
+        // (sRGB, BT.709 and PQ only: the gamma curves clamp negative input to 0 by design, and HLG's OOTF is not defined
+        // for negative luminance)
+        if ["srgb", "bt709", "pq"].contains(&tf_list[ti].0) {
+            for len in [4096usize, 8, 13, 3] {
+                jobs.push((ti, 0x38d1_b717, one, if quick { 4096 } else { 64 }, len | (1 << 21)));
+            }
+        }
     }
     if std::env::var("VERIF_C19_MEASURE").is_ok() {
         // single-threaded measuring run (thread-local statistics)
         for &(ti, a, b, st, chunk) in &jobs {
-            let _ = tf_roundtrip(tf_list[ti].0, tf_list[ti].1, a, b, st, chunk.min(1 << 20), (1.0, 1.0), false);
+            let _ = tf_roundtrip(tf_list[ti].0, tf_list[ti].1, a, b, st, chunk.min(1 << 20), (1.0, 1.0), 0);
         }
         dump_measure();
         std::process::exit(0);
     }
     // chunk values above 2^20 mark the colour jobs
-    let tr = par_map(&jobs, n_threads(), |_, &(ti, a, b, st, chunk)| tf_roundtrip(tf_list[ti].0, tf_list[ti].1, a, b, st, chunk & 0xfffff, tf_list[ti].2, chunk >> 20 != 0));
+    let tr = par_map(&jobs, n_threads(), |_, &(ti, a, b, st, chunk)| tf_roundtrip(tf_list[ti].0, tf_list[ti].1, a, b, st, chunk & 0xfffff, tf_list[ti].2, (chunk >> 20) as u32));
     let mut samples = 0u64;
     let mut max_err = vec![0f64; tf_list.len()];
     let mut worst = vec![0f64; tf_list.len()];
@@ -367,11 +377,14 @@ pub fn main(args: &crate::Args) {
     // (c) identity conversion: same encoding in and out is a no-op and leaves samples bit-identical
     let hdr = default_header();
     for (tn, t) in tfs() {
-        for (pn, p) in primaries() {
+        for (pn, p, cs) in primaries().into_iter().map(|(n, p)| (n, p, ColourSpace::Rgb)).chain(primaries().into_iter().take(1).map(|(_, p)| ("grey".to_string(), p, ColourSpace::Grey))) {
             rep.eval();
-            let e = ColorEncodingWithProfile::new(EnumColourEncoding { colour_space: ColourSpace::Rgb, white_point: WhitePoint::D65, primaries: p.clone(), tf: t, rendering_intent: RenderingIntent::Relative });
+            let e = ColorEncodingWithProfile::new(EnumColourEncoding { colour_space: cs, white_point: WhitePoint::D65, primaries: p.clone(), tf: t, rendering_intent: RenderingIntent::Relative });
             let r = guard(|| -> Result<(), String> {
                 let tr = ColorTransform::new(&e, &e, &hdr.metadata.opsin_inverse_matrix, &hdr.metadata.tone_mapping, &NullCms).map_err(|e| e.to_string())?;
+                if !tr.is_noop() {
+                    return Err("the transform is not recognised as a no-op".into());
+                }
                 let src: Vec<f32> = (0..97).map(|i| i as f32 / 96.0 * 1.2 - 0.1).collect();
                 let (mut a, mut b, mut c) = (src.clone(), src.iter().rev().cloned().collect::<Vec<_>>(), src.clone());
                 let b0 = b.clone();
@@ -388,7 +401,7 @@ pub fn main(args: &crate::Args) {
             }
         }
     }
-    rep.rule = format!("(a) FULL PRODUCT of enumerated encodings: {{RGB, Grey}} x 10 white points (D65, E, DCI, 5 custom, D65 and E moved by 5e-4) x 16 primaries (sRGB, 2100, P3, 4 custom real gamuts, 9 sets equal to a named set in two primaries only) x 14 transfer functions (709, linear, sRGB, PQ, DCI, HLG, 8 gammas up to 1.0) x 4 intents = {} encodings: synthesise ICC, parse back, compare as the statement prescribes (1e-4 on xy, 1e-4 relative on gamma); (b) for sRGB, BT.709, DCI, gamma 2.2, PQ, HLG: linear -> curve -> linear through ColorTransform on {} f32 bit pattern in [4.7e-10, 1] plus a lattice below, round-trip error within per-curve tolerances rel*x + floor fixed from the per-decade error of the unchanged tree (sRGB 2e-3 x, BT.709 / DCI / gamma 4e-5 x, HLG 6e-5 x, PQ 2e-5 x + 1e-4) and encode monotone, and the same on every slice length 1..67 and on ramps of saturated colours (r, 0.25 + 0.6 r, 0.3 r); (c) identity conversion for every tf x primaries leaves samples bit-identical.", encs.len(), if quick { "every 4096th" } else { "EVERY" });
+    rep.rule = format!("(a) FULL PRODUCT of enumerated encodings: {{RGB, Grey}} x 10 white points (D65, E, DCI, 5 custom, D65 and E moved by 5e-4) x 16 primaries (sRGB, 2100, P3, 4 custom real gamuts, 9 sets equal to a named set in two primaries only) x 14 transfer functions (709, linear, sRGB, PQ, DCI, HLG, 8 gammas up to 1.0) x 4 intents = {} encodings: synthesise ICC, parse back, compare as the statement prescribes (1e-4 on xy, 1e-4 relative on gamma); (b) for sRGB, BT.709, DCI, gamma 2.2, PQ, HLG: linear -> curve -> linear through ColorTransform on {} f32 bit pattern in [4.7e-10, 1] plus a lattice below, round-trip error within per-curve tolerances rel*x + floor fixed from the per-decade error of the unchanged tree (sRGB 2e-3 x, BT.709 / DCI / gamma 4e-5 x, HLG 6e-5 x, PQ 2e-5 x + 1e-4) and encode monotone, and the same on every slice length 1..67 and on ramps of saturated colours (r, 0.25 + 0.6 r, 0.3 r) and, for sRGB / BT.709 / PQ, on negated ramps (odd extension of the curves) in slice lengths 4096, 8, 13, 3; (c) identity conversion for every tf x primaries leaves samples bit-identical.", encs.len(), if quick { "every 4096th" } else { "EVERY" });
     rep.sample(json!({"encoding": encs[encs.len() / 2].0}));
     rep.sample(json!({"tf": "pq", "range_bits": [lo, one], "step": step}));
     rep.extra.insert("tf_samples".into(), json!(samples));
